@@ -373,8 +373,19 @@ fn gen_curved_path(r: &mut Rng, kinds: &[u8]) -> Vec<PathEl> {
             _ => Point::new(gen53(r), gen53(r)),
         };
         let n = 2 + r.below(4) as usize;
-        let start = gp(r);
-        v.push(PathEl::MoveTo(start));
+        // a second sub-path may start implicitly: ClosePath followed directly by a drawing element continues from
+        // the start point of the sub-path just closed (Segments::next; seed C01h)
+        let implicit = match v.first() {
+            Some(PathEl::MoveTo(s0)) if r.chance(1, 3) => Some(*s0),
+            _ => None,
+        };
+        let start = match implicit {
+            Some(s0) => s0,
+            None => gp(r),
+        };
+        if implicit.is_none() {
+            v.push(PathEl::MoveTo(start));
+        }
         for i in 0..n {
             let end = if i + 1 == n && r.chance(1, 3) { start } else { gp(r) };
             match *r.pick(kinds) {
@@ -833,6 +844,23 @@ fn g_curved(r: &mut Rng) -> Vec<f64> {
     pack(k, p, &els)
 }
 
+/// closed paths with a quadratic whose y-polynomial is linear up to a coefficient 1e-160..1e-300 times smaller:
+/// (c1/c2)^2 overflows in solve_quadratic, whose overflow branch has to return the root of the linear part (seed C01g)
+fn g_nearlinear(r: &mut Rng) -> Vec<f64> {
+    let eps = *r.pick(&[1e-160, -1e-160, 3e-170, 1e-200, -1e-250, 1e-300]);
+    let h = *r.pick(&[1.0, 0.5, 3.0, -2.0, -0.75]);
+    let gx = |r: &mut Rng| r.grid(16, 2.0);
+    let (x0, x1, x2) = (gx(r), gx(r), gx(r));
+    let mut els = vec![PathEl::MoveTo(Point::new(x0, eps)), PathEl::QuadTo(Point::new(x1, h), Point::new(x2, 2.0 * h))];
+    for _ in 0..1 + r.below(2) {
+        els.push(PathEl::LineTo(Point::new(gx(r), if r.bool() { eps } else { r.grid(16, 2.0) })));
+    }
+    els.push(PathEl::ClosePath);
+    let p = gen_query(r, &els);
+    let k = [r.unit(), r.unit(), r.unit(), r.unit(), r.unit(), r.unit()];
+    pack(k, p, &els)
+}
+
 /// L2: curved closed paths against the winding number of a finely refined polyline
 fn law_curved_refined(a: &[f64]) -> Option<(String, String)> {
     let (_, p, els) = unpack(a);
@@ -914,6 +942,12 @@ fn law_reverse(a: &[f64]) -> Option<(String, String)> {
     let rev: Vec<PathSeg> = segs.iter().rev().map(|s| s.reverse()).collect();
     let rels = rebuild(&rev);
     let (w, wr) = (els.as_slice().winding(p), rels.as_slice().winding(p));
+    // the library's own reversal (every sub-path of these paths is closed, so the reversed path has the same trace)
+    let lib = BezPath::from_vec(els.clone()).reverse_subpaths();
+    let wl = lib.winding(p);
+    if wl != -w && wr == -w {
+        return mismatch("reverse_subpaths", lib.elements(), p, wl, -w, "minus the winding number of the original path (BezPath::reverse_subpaths)");
+    }
     if wr != -w {
         // which of the two is wrong?
         let want = ref_winding(&els, p, 1e-6).unwrap();
@@ -1223,6 +1257,7 @@ fn laws() -> Vec<Law> {
     vec![
         Law { name: "polygon_exact", gen: g_polygon, check: law_polygon_exact, weight: 8 },
         Law { name: "curved_refined", gen: g_curved, check: law_curved_refined, weight: 4 },
+        Law { name: "curved_refined_nearlinear", gen: g_nearlinear, check: law_curved_refined, weight: 1 },
         Law { name: "outside_box", gen: g_outside, check: law_outside_box, weight: 6 },
         Law { name: "reverse", gen: g_curved, check: law_reverse, weight: 2 },
         Law { name: "affine", gen: g_affine, check: law_affine, weight: 2 },
